@@ -987,6 +987,76 @@ def run_scale_reduced(chk, F):
     chk.expect_count('E10-scale-reduced', 'operator*= implementations', n, 8)
 
 
+def run_inverse_erase(chk, F):
+    """E2-swap-dictionaries (erase clause): indexToRow_ maps a public row index to the stored row, rowToIndex_ is its
+    inverse. Where a function looks a row up in one of them and erases the pair, the key it erases from the *other*
+    dictionary is the value it read (`it->second`), never the key it searched with: the two only agree while no swap is
+    pending, otherwise the entry of another, non-empty row goes and the next reorder throws out_of_range.
+    E7-paired-operands: the comparison operators of the column classes walk two columns with two iterators and fill two
+    scratch containers: a statement that fills `entriesN` reads `itN` only (the coefficient of the other column makes
+    two Z_p columns with one support compare as equal: the compressed matrix merges them)."""
+    n = 0
+    for f in F.functions:
+        if f.get('clsname') not in ('Base_matrix', 'Boundary_matrix') or f['name'] != 'erase_empty_row' or \
+                f.get('inst') not in (0, 2) or f.get('body') is None:
+            continue
+        its = {}
+        for x in ir.walk(f['body']):
+            if x.get('k') == 'VarDecl' and x.get('init') is not None:
+                i = ir.skipcasts(x['init'])
+                if i is not None and ir.is_call(i) and ir.call_name(i) == 'find' and ir.call_receiver(i) is not None:
+                    its[x['n']] = (ir.show(ir.call_receiver(i)).split('::')[-1], ir.show(ir.call_args(i)[0]))
+        for x in ir.walk(f['body']):
+            if not (ir.is_call(x) and ir.call_name(x) == 'erase' and ir.call_receiver(x) is not None):
+                continue
+            recv = ir.show(ir.call_receiver(x)).split('::')[-1]
+            if recv not in ('indexToRow_', 'rowToIndex_') or not ir.call_args(x):
+                continue
+            a = ir.show(ir.call_args(x)[0]).replace(' ', '')
+            other = [(nm, d) for nm, d in its.items() if d[0] != recv and d[0] in ('indexToRow_', 'rowToIndex_')]
+            if not other:
+                continue
+            n += 1
+            vals = set()
+            for nm, _ in other:
+                vals |= {nm + '->second', '(*%s).second' % nm}
+            for y in ir.walk(f['body']):      # locals that received that value
+                t_ = ir.write_target(y)
+                if t_ is not None and y.get('op') == '=' and ir.show(y['c'][1]).replace(' ', '') in vals:
+                    vals.add(ir.show(t_))
+                if y.get('k') == 'VarDecl' and y.get('init') is not None and \
+                        ir.show(y['init']).replace(' ', '') in vals:
+                    vals.add(y['n'])
+            ok = a in vals
+            chk.ob('E2-swap-dictionaries', '%s::erase_empty_row erases from %s the value it read in the inverse '
+                   'dictionary' % (f['clsname'], recv), '%s:%s' % (rel(f['file']), x.get('l')), ok,
+                   '' if ok else '`%s` is keyed with `%s`, the key the *other* dictionary was searched with: with a swap '
+                   'pending the pair of another row is broken' % (ir.show(x)[:50], a),
+                   key='E2|%s::erase_empty_row|inverse-erase' % f['clsname'])
+    chk.expect_count('E2-swap-dictionaries', 'inverse erases in erase_empty_row', n, 1)
+    m = 0
+    for f in F.functions:
+        if f.get('inst') not in (0, 2) or f.get('body') is None or '/columns/' not in f['file'] or \
+                f['name'] not in ('operator<', 'operator=='):
+            continue
+        for x in ir.walk(f['body']):
+            if not (ir.is_call(x) and ir.call_receiver(x) is not None):
+                continue
+            r = re.match(r'(\w*?)(\d)$', ir.show(ir.call_receiver(x)))
+            if not r or ir.call_name(x) not in ('emplace', 'insert', 'push_back', 'emplace_back', 'try_emplace'):
+                continue
+            used = set(re.findall(r'\bit(\d)\b', ' '.join(ir.show(a) for a in ir.call_args(x))))
+            if not used:
+                continue
+            m += 1
+            ok = used == {r.group(2)}
+            chk.ob('E7-paired-operands', '%s::%s fills `%s` from its own iterator' % (f.get('clsname') or '-', f['name'],
+                   ir.show(ir.call_receiver(x))), '%s:%s' % (rel(f['file']), x.get('l')), ok,
+                   '' if ok else '`%s` mixes the two columns (iterators %s)' % (ir.show(x)[:70], sorted(used)),
+                   key='E7|%s::%s|paired-operands' % (f.get('clsname') or '-', f['name']))
+    chk.expect_count('E7-paired-operands', 'scratch fills in column comparisons', m, 2)
+
+
 def run_order_before_count(chk, F):
     """E2-order-counted: _orderRows() applies the pending lazy swaps to the columns 0 .. get_number_of_columns() - 1,
     and with the vector container that number is the insertion counter. On every path of a remove_last of the base /
@@ -1509,6 +1579,7 @@ def run(tier, replay=None):
     run_base_swaps_protocol(chk, F)
     run_indexed_insert_counter(chk, F)
     run_scale_reduced(chk, F)
+    run_inverse_erase(chk, F)
     run_heap_order(chk, F)
     findrule.run(chk, F, ('Base_matrix.h', 'base_swap.h', 'matrix_row_access.h',
                           'Base_matrix_with_column_compression.h'), TABLE.get('find_invariants', {}), 'C09', 3)
